@@ -231,10 +231,17 @@ def rule_samepath(ctx: Ctx, rule: str = "C12.same-path"):
         if not adds:
             rep.violation(rule, rc.loc(), "_register_callbacks does not attach providers", rc.key, "no _add_listener call")
             continue
-        arg = expand(adds[0].term.args[0], evs)
-        ok = isinstance(arg, ast.Call) and show(arg.func) == "Listeners.from_listeners" and isinstance(arg.args[0], ast.Tuple)
+        from ..shapes import seq_model
+
+        arg1 = expand1(adds[0].term.args[0], evs)
+        el = None
+        if isinstance(arg1, ast.Call) and show(arg1.func) == "Listeners.from_listeners" and arg1.args:
+            raw = arg1.args[0]
+            el = seq_model(p, raw if not (isinstance(raw, ast.Name) and raw.id.startswith("$c")) else expand1(raw, evs), upto=adds[0].idx)
+            if el is not None:
+                el = [expand(x, evs) for x in el]
+        ok = el is not None
         if ok:
-            el = arg.args[0].elts
             ok = len(el) == 3 and show(el[0]).startswith("Listener.from_obj(self, skip_attrs=self._protected_attrs") and \
                 show(el[1]).startswith("Listener.from_obj(self.model, skip_attrs={self.state_field}") and isinstance(el[2], ast.Starred) and \
                 "Listener.from_obj(" in show(el[2]) and show(el[2]).endswith(f"in {rc.params[1]})")
